@@ -68,6 +68,19 @@ def _rejected_slice(lst) -> None:
         pass
 
 
+def _refused_rename(op) -> None:
+    """an Operation's three variable sets share one idShort scope: renaming a variable to the idShort of a variable of ANOTHER set is
+    refused (AASd-022) and leaves everything as it was"""
+    sets = [s for s in (op.input_variable, op.output_variable, op.in_output_variable) if len(s)]
+    if len(sets) >= 2:
+        a, b = next(iter(sets[0])), next(iter(sets[-1]))
+        for x, y in ((a, b), (b, a)):
+            try:
+                x.id_short = y.id_short
+            except Exception:
+                pass
+
+
 class Case:
     """A set of root objects (descriptions + real objects), and a provider arrangement."""
     def __init__(self, descs: List[Any], stores: List[List[int]], churn: bool = False):
@@ -103,6 +116,8 @@ class Case:
                 if len(o.value) < n:
                     o.value.add(last)
                 _rejected_slice(o)
+            elif isinstance(o, model.Operation):
+                _refused_rename(o)
             elif isinstance(o, model.SubmodelElementCollection) and len(o.value) >= 1:
                 # removing an element that merely LOOKS like a member (same idShort, another object) is refused
                 member = next(iter(o.value))
